@@ -412,13 +412,14 @@ class ResponseBatchItem(Struct):
                 kmip_version=kmip_version
             )
 
-        if (self.operation is not None):
+        if (self.operation is not None and
+                self.is_tag_next(Tags.RESPONSE_PAYLOAD, tstream)):
             # Dynamically create the response payload class that belongs to the
             # operation
-            expected = self.payload_factory.create(self.operation.value)
-            if self.is_tag_next(expected.tag, tstream):
-                self.response_payload = expected
-                self.response_payload.read(tstream, kmip_version=kmip_version)
+            self.response_payload = self.payload_factory.create(
+                self.operation.value
+            )
+            self.response_payload.read(tstream, kmip_version=kmip_version)
 
         # Read the message extension if it is present
         if self.is_tag_next(Tags.MESSAGE_EXTENSION, tstream):
